@@ -100,3 +100,328 @@ def oracle_cross_backend(run, tier, rng):
     return {"ok": True, "scripts": n, "backends": cfg.backends()}
 
 PROPS["C06"]["oracles"] = [("cross_backend", oracle_cross_backend)]
+
+# ------------------------------------------------------------------ more oracles
+import subprocess, shutil, json as _json
+ASAN = ["-fsanitize=address,undefined", "-fno-sanitize=alignment", "-fno-sanitize-recover=all", "-fno-omit-frame-pointer"]
+
+def _build_aux(run, libdir, src, name, cc="gcc", extra=()):
+    out = os.path.join(libdir, name)
+    p = vlib.run([cc, "-O1", "-g", "-I" + os.path.join(libdir, "include"), "-o", out, os.path.join(vlib.VERIF, "harness", src),
+                  os.path.join(libdir, "src", "libskinny.a")] + list(extra))
+    if p.returncode != 0: raise RuntimeError("build of %s failed: %s" % (src, (p.stdout + p.stderr)[-1500:]))
+    return out
+
+def s_mixed(rng, tier, st):
+    """the C01-C07 inputs and histories in a small dose (used by C11, C12, C09)"""
+    return gen_ops.gen_block(rng, "s128", N(tier, 2, 20), directed=False, stats=st) + gen_ops.gen_block(rng, "s64", N(tier, 2, 20), directed=False, stats=st) + \
+           gen_ops.gen_mantis(rng, N(tier, 2, 10), stats=st) + gen_ops.gen_tweak(rng, N(tier, 3, 20), stats=st) + \
+           gen_ops.gen_ctr(rng, N(tier, 4, 30), stats=st) + gen_ops.gen_ctr_midstream(rng, N(tier, 2, 10), stats=st) + gen_ops.gen_parallel(rng, N(tier, 2, 15), stats=st)
+
+def oracle_buffers(run, tier, rng):
+    """C09: sanitizer build; every pointer argument at every alignment, flush against PROT_NONE pages,
+    in-place bulk calls, all overlap offsets for single-block calls; output compared with the model"""
+    cfg = DEFAULT_CFG
+    d, cexe = run.lib(cfg, sanitize=ASAN)
+    model = os.path.join(vlib.LEAN, ".lake", "build", "bin", "skinny_model")
+    st = gen_ops.Stats(); n = 0; placements = 0
+    aligns = [0, 1, 3, 7, 13] if tier == "quick" else list(range(32))
+    for be in cfg.backends():
+        base = gen_ops.gen_ctr(Rng(rng.next()), N(tier, 3, 12), stats=st) + gen_ops.gen_parallel(Rng(rng.next()), N(tier, 2, 8), stats=st) + \
+               gen_ops.gen_block(Rng(rng.next()), "s128", 1, directed=False) + gen_ops.gen_block(Rng(rng.next()), "s64", 1, directed=False) + gen_ops.gen_mantis(Rng(rng.next()), 1)[:2]
+        for name, body in base:
+            variants = [(["align %d" % a], {}) for a in aligns] + [(["guard 1"], {}), (["guard 2"], {}), (["guard 1"], {"CDRV_INPLACE": "1"}), (["align 5"], {"CDRV_INPLACE": "1"})]
+            if name.startswith("block") or name.startswith("mantis"):
+                deltas = [-15, -8, -1, 1, 8, 15, 0] if tier == "quick" else list(range(-15, 16))
+                bs = 16 if "s128" in name else 8
+                variants += [(["overlap %d" % dl], {}) for dl in deltas if abs(dl) < bs or dl == 0]
+            for pre, env in variants:
+                lines = _hdr(run, cfg, be) + pre + body
+                oc, rc, err = vlib.run_driver(cexe, "\n".join(lines) + "\n", dict(env, ASAN_OPTIONS="detect_leaks=0:abort_on_error=0"))
+                om, _, _ = vlib.run_driver(model, "\n".join(lines) + "\n")
+                n += 1; placements += 1
+                if rc != 0 or oc != om:
+                    k = next((i for i in range(max(len(oc), len(om))) if (oc[i] if i < len(oc) else None) != (om[i] if i < len(om) else None)), len(oc))
+                    what = "sanitizer/guard-page report or output difference: backend=%s placement=%s%s op=%r rc=%d %s" % (be, pre, " inplace" if env else "", lines[k][:70] if k < len(lines) else "?", rc, err.strip().split("\n")[0][:200] if err else "")
+                    return {"ok": False, "what": what, "witness": {"lines": lines[: k + 1]}, "runs": n}
+    return {"ok": True, "runs": n, "placements": placements, "alignments": aligns, "sanitizers": "ASan+UBSan (alignment check off: unaligned word access is the documented SKINNY_UNALIGNED choice)"}
+
+def oracle_junk(run, tier, rng):
+    """C11: identical scripts under different prior memory contents, allocators, optimisation levels and compilers"""
+    st = gen_ops.Stats()
+    cfgs = [DEFAULT_CFG, BuildCfg("gcc-O0", opt="-O0"), BuildCfg("clang-O2", cc="clang-14", opt="-O2")]
+    if tier != "quick": cfgs += [BuildCfg("gcc-O1-pattern", opt="-O1", extra=["-ftrivial-auto-var-init=pattern"]), BuildCfg("gcc-O1-zero", opt="-O1", extra=["-ftrivial-auto-var-init=zero"]), BuildCfg("clang-O0", cc="clang-14", opt="-O0")]
+    scripts = s_mixed(Rng(rng.next()), tier, st) + gen_ops.gen_keylen(Rng(rng.next()), junk_patterns=(0x00,))[:2] + gen_ops.gen_api_walk(Rng(rng.next()), N(tier, 6, 40), 25, stats=st)
+    ref = None; n = 0
+    for cfg in cfgs:
+        d, cexe = run.lib(cfg)
+        for junk, env in ((0x00, {}), (0xA5, {"MALLOC_PERTURB_": "90"}), (0xFF, {"MALLOC_PERTURB_": "165"})):
+            outs = []
+            for name, body in scripts:
+                lines = _hdr(run, cfg, "vec256") + ["junk %d" % junk] + [l for l in body if not l.startswith("junk ")]
+                o, rc, err = vlib.run_driver(cexe, "\n".join(lines) + "\n", env)
+                outs.append((name, lines, [x for x, l in zip(o, lines) if l != "heap"])); n += 1
+            if ref is None: ref = outs; continue
+            for (name, lines, o), (_, rlines, ro) in zip(outs, ref):
+                if o != ro:
+                    k = next(i for i in range(max(len(o), len(ro))) if (o[i] if i < len(o) else None) != (ro[i] if i < len(ro) else None))
+                    return {"ok": False, "what": "result depends on prior memory contents / build: config=%s junk=0x%02x op=%r: %s vs reference %s" % (cfg.name, junk, lines[k][:70], (o[k] if k < len(o) else "-")[:50], (ro[k] if k < len(ro) else "-")[:50]),
+                            "witness": {"lines": lines[: k + 1]}, "runs": n}
+    res = {"ok": True, "runs": n, "configs": [c.name for c in cfgs], "junk_patterns": [0, 0xA5, 0xFF]}
+    if tier != "quick" and shutil.which("valgrind"):
+        d, cexe = run.lib(BuildCfg("gcc-O1", opt="-O1"))
+        lines = _hdr(run, DEFAULT_CFG, "vec256") + scripts[0][1][:60] + scripts[-1][1]
+        p = subprocess.run(["valgrind", "-q", "--error-exitcode=9", "--malloc-fill=0x5a", "--free-fill=0xc3", cexe], input="\n".join(lines) + "\n", capture_output=True, text=True)
+        res["memcheck_uninit"] = "clean" if p.returncode == 0 else p.stderr[-600:]
+        if p.returncode == 9:
+            return {"ok": False, "what": "memcheck: output depends on uninitialised memory: " + p.stderr.strip().split("\n")[0][:200], "witness": {"lines": lines}}
+    return res
+
+def fact_c11(facts, meta):
+    out = []
+    for nm, m in meta.items():
+        if m.get("junk_reads"): out.append("%s reads uninitialised local memory: %s" % (nm, m["junk_reads"]))
+        if m.get("dispatch") and m.get("uses_junk"): out.append("%s: a size-specialised loader reads uninitialised memory" % nm)
+    return out
+
+def fact_c08(facts, meta):
+    out = []
+    for nm, m in meta.items():
+        if m.get("leak"): out.append("%s: secret-dependent branch or address: %s" % (nm, m["leak"][:2]))
+    return out
+
+def oracle_taint(run, tier, rng):
+    """C08: memcheck with all secrets undefined on the compiled library"""
+    if not shutil.which("valgrind"): return {"ok": True, "skipped": "valgrind not available"}
+    cfgs = [DEFAULT_CFG] if tier == "quick" else [DEFAULT_CFG, BuildCfg("gcc-O0", opt="-O0"), BuildCfg("gcc-O1", opt="-O1"), BuildCfg("gcc-O2", opt="-O2"), BuildCfg("clang-O3", cc="clang-14", opt="-O3"), BuildCfg("clang-O0", cc="clang-14", opt="-O0"), BuildCfg("w32", w64=0), BuildCfg("nosimd-aligned", vec128=0, vec256=0, unaligned=0)]
+    runs = []
+    for cfg in cfgs:
+        d, _ = run.lib(cfg)
+        exe = _build_aux(run, d, "ct_taint.c", "ct_taint_" + cfg.name, cfg.cc)
+        p = subprocess.run(["valgrind", "-q", "--error-exitcode=9", "--track-origins=no", exe] + (["quick"] if tier == "quick" else []), capture_output=True, text=True, timeout=1800)
+        runs.append({"config": cfg.name, "rc": p.returncode, "out": p.stdout.strip()})
+        if p.returncode != 0:
+            first = [l for l in p.stderr.split("\n") if "depends on uninit" in l or "Use of uninit" in l or " at 0x" in l or " by 0x" in l][:6]
+            return {"ok": False, "what": "secret-dependent branch or address in the compiled library (config %s): %s" % (cfg.name, " | ".join(x.strip() for x in first)[:500]),
+                    "witness": {"lines": ["# valgrind -q --error-exitcode=9 ct_taint (harness/ct_taint.c) built against config %s" % cfg.name] + p.stderr.split("\n")[:40]}, "runs": runs}
+    return {"ok": True, "runs": runs}
+
+def oracle_probe(run, tier, rng):
+    """C13: the compiled probes in different calling contexts, the selection cascade, determinism"""
+    cfg = DEFAULT_CFG
+    d, _ = run.lib(cfg)
+    exe = _build_aux(run, d, "probe_drv.c", "probe_drv", "gcc")
+    p = subprocess.run([exe], capture_output=True, text=True)
+    lines = p.stdout.strip().split("\n")
+    m = re.match(r"host sse2=(\d) avx2_usable=(\d)", lines[0])
+    sse2, avx2 = int(m.group(1)), int(m.group(2))
+    n = 0
+    for l in lines[1:]:
+        n += 1
+        cap = int(re.search(r"cap=(\d)", l).group(1))
+        e128 = 1 if (sse2 and cap >= 1) else 0
+        e256 = 1 if (avx2 and cap >= 2) else 0
+        if "has128=" in l:
+            g = re.search(r"has128=(\d) has256=(\d)", l)
+            if (int(g.group(1)), int(g.group(2))) != (e128, e256):
+                return {"ok": False, "what": "probe answer depends on the calling context or differs from CPUID: %s (host sse2=%d avx2_usable=%d)" % (l, sse2, avx2), "witness": {"lines": ["# harness/probe_drv.c", l]}}
+        else:
+            want128 = "vec256" if e256 else ("vec128" if e128 else "generic")
+            want8 = "vec128" if e128 else "generic"
+            exp = "init=111111 ctr128=%s ctr64=%s mctr=%s par128.vt=%s par128.psize=%d par64.vt=%s par64.psize=64 mpar.vt=%s mpar.psize=64" % (
+                want128, want8, want8, "vec" if e128 else "null", 128 if e256 else 64, "vec" if e128 else "null", "vec" if e128 else "null")
+            if exp not in l:
+                return {"ok": False, "what": "back-end selection differs from the model: got %r expected ...%s" % (l, exp), "witness": {"lines": ["# harness/probe_drv.c", l]}}
+    return {"ok": True, "lines_checked": n, "host": {"sse2": sse2, "avx2_usable": avx2}, "entry_register_values": 8}
+
+def fact_c13(facts, meta):
+    """the CPUID instruction reads EAX (leaf) and ECX (sub-leaf): every asm statement that executes
+    leaf 7 must bind ECX; XGETBV must bind ECX = 0"""
+    out = []
+    txt = facts.get("probe_text", {}).get("_skinny_has_vec256", "")
+    for a in facts.get("asm_ops", []):
+        cons = [c for c, v in a["inputs"]]
+        if "cpuid" in a["template"]:
+            leaf = [v for c, v in a["inputs"] if c in ("0", "a")]
+            if leaf and leaf[0].strip("() ") == "7" and not any(c in ("2", "c") for c in cons):
+                out.append("%s: CPUID leaf 7 executed without binding ECX (sub-leaf undefined): inputs %s" % (a["func"], a["inputs"]))
+        if "xgetbv" in a["template"] and not any(c == "c" for c in cons):
+            out.append("%s: XGETBV executed without binding ECX" % a["func"])
+    if "_skinny_has_vec256" in facts.get("probe_text", {}):
+        if "xgetbv" not in txt: out.append("_skinny_has_vec256 does not check OS support for the YMM state (no XGETBV)")
+        if "__get_cpuid_max" not in txt and "cpuid_max" not in txt and not re.search(r'"0"\s*\(\s*0\s*\)', txt): out.append("_skinny_has_vec256 does not check the maximum CPUID leaf")
+    return out
+
+def oracle_threads(run, tier, rng):
+    """C18: section census of the shipped (guard-off) objects + ThreadSanitizer run"""
+    cfg = DEFAULT_CFG
+    d = vlib.build_lib(cfg, hooks=False)
+    p = vlib.run(["sh", "-c", "objdump -t %s/src/*.o" % d])
+    mutable = []
+    for l in p.stdout.split("\n"):
+        m = re.match(r"^[0-9a-f]+\s+(\S+)\s+(\S)?\s*(\.\S+|\*COM\*)\s+[0-9a-f]+\s+(\S+)$", l.replace("\t", " "))
+        parts = l.split()
+        if len(parts) >= 5 and "O" in parts[1:3] or (len(parts) >= 4 and parts[-3] == "*COM*"):
+            sec = parts[-3]
+            # writable sections: .data, .bss, .tdata, .tbss, COMMON; `.data.rel.ro` is read-only after relocation
+            if sec == "*COM*" or re.match(r"^\.(data|bss|tdata|tbss)(\.|$)", sec) and not sec.startswith(".data.rel.ro"):
+                mutable.append(" ".join(parts))
+    if mutable:
+        return {"ok": False, "what": "mutable object with static storage duration in the compiled library: " + "; ".join(mutable[:4]), "witness": {"lines": ["# objdump -t src/*.o (guard off): objects in writable sections"] + mutable}}
+    tsan = ["-fsanitize=thread"]
+    dl = vlib.build_lib(BuildCfg("tsan", opt="-O1"), sanitize=tsan)
+    exe = _build_aux(run, dl, "threads.c", "threads", "gcc", ["-fsanitize=thread", "-lpthread"])
+    seeds = [1] if tier == "quick" else [1, 2, 3, 4, 5]
+    for sd in seeds:
+        seq = subprocess.run([exe, "sequential", str(sd)], capture_output=True, text=True)
+        con = subprocess.run([exe, "concurrent", str(sd)], capture_output=True, text=True, env=dict(os.environ, TSAN_OPTIONS="halt_on_error=1 exitcode=66"))
+        if con.returncode != 0 or "ThreadSanitizer" in con.stderr:
+            return {"ok": False, "what": "ThreadSanitizer report: " + " ".join(con.stderr.split("\n")[1:4])[:300], "witness": {"lines": ["# harness/threads.c concurrent %d" % sd] + con.stderr.split("\n")[:30]}}
+        if seq.stdout != con.stdout:
+            return {"ok": False, "what": "concurrent results differ from sequential results", "witness": {"lines": ["# harness/threads.c seed %d" % sd] + seq.stdout.split("\n") + con.stdout.split("\n")}}
+    return {"ok": True, "threads": 8, "rounds": 40, "seeds": seeds, "census": "no symbol in .data/.bss/.common of the guard-off objects"}
+
+def fact_c18(facts, meta):
+    return ["mutable object with static storage duration: %s (%s) in %s" % (g["name"], g["type"], g["file"]) for g in facts.get("globals", []) if not g["const"]]
+
+def fact_c17(facts, meta):
+    out = []
+    al = {(a["file"]): a["size"] for a in facts.get("alloc", [])}
+    cl = {}
+    for c in facts.get("cleanse", []):
+        if c["func"].endswith("cleanup"): cl[c["file"]] = c["size"]
+    for f, sz in al.items():
+        if f not in cl: out.append("%s: context allocated (%s bytes) but cleanup does not cleanse it" % (f, sz))
+        elif cl[f] != sz: out.append("%s: cleanup cleanses %s bytes of a %s-byte context" % (f, cl[f], sz))
+    return out
+
+def fact_c14(facts, meta):
+    """documented NULL-tolerant parameters must be tested before use"""
+    want = {"skinny128_set_tweak": ["ks"], "skinny64_set_tweak": ["ks"], "mantis_set_tweak": ["ks", "tweak"],
+            "skinny128_parallel_ecb_init": ["ecb"], "skinny64_parallel_ecb_init": ["ecb"], "mantis_parallel_ecb_init": ["ecb"],
+            "skinny128_set_key": ["ks", "key"], "skinny64_set_key": ["ks", "key"], "mantis_set_key": ["ks", "key"],
+            "skinny128_set_tweaked_key": ["ks", "key"], "skinny64_set_tweaked_key": ["ks", "key"]}
+    out = []
+    for fn, ps in want.items():
+        g = facts.get("guards", {}).get(fn)
+        if g is None: out.append("public function %s not found" % fn); continue
+        for p_ in ps:
+            if p_ not in g["checked_before_use"]: out.append("%s does not test %s for NULL before using it" % (fn, p_))
+    return out
+
+PROPS["C08"] = {"scripts": None, "configs": only_default, "backends": one_backend, "modules": [], "theorems": [], "fact_checks": fact_c08, "oracles": [("taint", oracle_taint)]}
+PROPS["C09"] = {"scripts": None, "configs": only_default, "backends": one_backend, "modules": [], "theorems": [], "oracles": [("buffers", oracle_buffers)]}
+PROPS["C11"] = {"scripts": None, "configs": only_default, "backends": one_backend, "modules": [], "theorems": [], "fact_checks": fact_c11, "oracles": [("junk", oracle_junk)]}
+PROPS["C12"] = {"scripts": s_mixed, "configs": cfg_matrix, "backends": all_backends, "modules": [], "theorems": []}
+PROPS["C13"] = {"scripts": None, "configs": only_default, "backends": one_backend, "modules": [], "theorems": [], "fact_checks": fact_c13, "oracles": [("probe", oracle_probe)]}
+PROPS["C18"] = {"scripts": None, "configs": only_default, "backends": one_backend, "modules": [], "theorems": [], "fact_checks": fact_c18, "oracles": [("threads", oracle_threads)]}
+PROPS["C17"]["fact_checks"] = fact_c17
+PROPS["C14"]["fact_checks"] = fact_c14
+
+# ------------------------------------------------------------------ C19 Arduino port
+def gen_arduino(rng, n, st=None):
+    """scripts restricted to what the Arduino classes offer (primary key sizes, Mantis-8)"""
+    scripts = []
+    for fam, bs, sizes, tsizes in (("s128", 16, [16, 32, 48], [16, 32]), ("s64", 8, [8, 16, 24], [8, 16])):
+        L = ["%s.key.new k" % fam, "%s.tkey.new t" % fam]
+        for i in range(n):
+            ks = rng.choice(sizes)
+            L.append("%s.set_key k %s %d" % (fam, gen_ops.hx(rng.bytes(ks)), ks))
+            for _ in range(2):
+                b = rng.bytes(bs)
+                L.append("%s.enc k %s" % (fam, gen_ops.hx(b))); L.append("%s.dec k %s" % (fam, gen_ops.hx(b)))
+            ts = rng.choice(tsizes)
+            L.append("%s.set_tweaked_key t %s %d" % (fam, gen_ops.hx(rng.bytes(ts)), ts))
+            L.append("%s.tenc t %s" % (fam, gen_ops.hx(rng.bytes(bs))))
+            for _ in range(rng.below(5)):
+                if rng.chance(0.2): L.append("%s.set_tweak t NULL %d" % (fam, bs))
+                else: L.append("%s.set_tweak t %s %d" % (fam, gen_ops.hx(rng.bytes(bs)), bs))
+                b = rng.bytes(bs)
+                L.append("%s.tenc t %s" % (fam, gen_ops.hx(b))); L.append("%s.tdec t %s" % (fam, gen_ops.hx(b)))
+        scripts.append(("arduino-" + fam, L))
+    L = ["mantis.key.new m"]
+    for i in range(n):
+        mode = rng.below(2)
+        L.append("mantis.set_key m %s 16 8 %d" % (gen_ops.hx(rng.bytes(16)), mode))
+        L.append("mantis.crypt m %s" % gen_ops.hx(rng.bytes(8)))
+        for _ in range(rng.below(5)):
+            r = rng.below(4)
+            if r == 0: L.append("mantis.swap m")
+            elif r == 1: L.append("mantis.set_tweak m NULL 8")
+            else: L.append("mantis.set_tweak m %s 8" % gen_ops.hx(rng.bytes(8)))
+            L.append("mantis.crypt m %s" % gen_ops.hx(rng.bytes(8)))
+    scripts.append(("arduino-mantis", L))
+    return scripts
+
+def oracle_arduino(run, tier, rng):
+    cfg = DEFAULT_CFG
+    d, cexe = run.lib(cfg)
+    ard = os.path.join(d, "ardrv")
+    adir = os.path.join(d, "arduino", "libraries", "Skinny")
+    p = vlib.run(["sh", "-c", "g++ -O1 -I%s -I%s/utility %s %s/*.cpp -o %s" % (adir, adir, os.path.join(vlib.VERIF, "harness", "ardrv.cpp"), adir, ard)])
+    if p.returncode != 0:
+        return {"ok": False, "broken": "Arduino port does not build on the host: " + (p.stdout + p.stderr)[-800:]}
+    model = os.path.join(vlib.LEAN, ".lake", "build", "bin", "skinny_model")
+    n = 0; cmp = 0
+    for name, body in gen_arduino(Rng(rng.next()), N(tier, 25, 400)):
+        lines = _hdr(run, cfg, "vec256") + body
+        oa, rca, erra = vlib.run_driver(ard, "\n".join(lines) + "\n")
+        oc, _, _ = vlib.run_driver(cexe, "\n".join(lines) + "\n")
+        om, _, _ = vlib.run_driver(model, "\n".join(lines) + "\n")
+        n += 1
+        for i, l in enumerate(lines):
+            a = oa[i] if i < len(oa) else "<missing>"
+            if a == "undef": continue
+            cmp += 1
+            if a != (oc[i] if i < len(oc) else None) or a != (om[i] if i < len(om) else None):
+                return {"ok": False, "what": "Arduino class differs from the C library / model at op %r: arduino=%s c=%s model=%s" % (l[:70], a[:40], (oc[i] if i < len(oc) else "-")[:40], (om[i] if i < len(om) else "-")[:40]),
+                        "witness": {"lines": lines[: i + 1]}}
+    # CTR<Skinny128_*> against the C library's CTR with a 16-byte counter, arbitrary cuts
+    r2 = Rng(rng.next())
+    for variant, ks in ((128, 16), (256, 32), (384, 48)):
+        for rep in range(N(tier, 6, 60)):
+            key = r2.bytes(ks)
+            iv = r2.choice(gen_ops.carry_counters(r2, 16))
+            cuts = gen_ops.cut_sizes(r2, 16, 4, r2.below(300))
+            datas = [r2.bytes(c) for c in cuts]
+            la = ["ctr128.new a %d" % variant, "ctr.set_key a %s" % key.hex(), "ctr.set_iv a %s" % iv.hex()] + ["ctr.encrypt a %s" % gen_ops.hx(x) for x in datas]
+            lc = _hdr(run, cfg, "vec256") + ["h.new c zero", "ctr128.init c", "ctr128.set_key c %s %d" % (key.hex(), ks), "ctr128.set_counter c %s 16" % iv.hex()] + ["ctr128.encrypt c %s" % gen_ops.hx(x) for x in datas] + ["ctr128.cleanup c"]
+            oa, _, _ = vlib.run_driver(ard, "\n".join(la) + "\n")
+            oc, _, _ = vlib.run_driver(cexe, "\n".join(lc) + "\n")
+            om, _, _ = vlib.run_driver(model, "\n".join(lc) + "\n")
+            n += 1
+            ea = [x.replace("out=", "") for x in oa[3:]]
+            ec = [x.replace("ret=1 out=", "") for x in oc[7:-1]]
+            em = [x.replace("ret=1 out=", "") for x in om[7:-1]]
+            cmp += len(ea)
+            if ea != ec or ea != em:
+                return {"ok": False, "what": "CTR<Skinny128_%d> differs from skinny128_ctr_* : iv=%s cuts=%s" % (variant, iv.hex(), cuts[:10]), "witness": {"lines": la + ["# versus"] + lc}}
+    # AVR look-up tables in the sources versus the specification's S-boxes (not executed on the host)
+    tabs = {}
+    for fn in ("Skinny128.cpp", "Skinny64.cpp", "Mantis8.cpp"):
+        txt = open(os.path.join(adir, fn)).read()
+        for m in re.finditer(r"static\s+(?:const\s+)?uint8_t\s+(?:const\s+)?(\w+)\[(\d*)\]\s*(?:PROGMEM)?\s*=\s*\{(.*?)\};", txt, re.S):
+            vals = [int(x, 0) for x in re.findall(r"0x[0-9a-fA-F]+|\b\d+\b", m.group(3))]
+            tabs[fn + ":" + m.group(1)] = vals
+    return {"ok": True, "scripts": n, "compared_lines": cmp, "avr_tables_found": {k: len(v) for k, v in tabs.items()}, "classes": 11}
+
+PROPS["C19"] = {"scripts": None, "configs": only_default, "backends": one_backend, "modules": [], "theorems": [], "oracles": [("arduino", oracle_arduino)]}
+
+# ------------------------------------------------------------------ C20 example tools
+def oracle_tools(run, tier, rng):
+    import tools_drv
+    cfg = DEFAULT_CFG
+    d, cexe = run.lib(cfg)
+    p = vlib.run(["make", "-C", os.path.join(d, "examples"), "COMMON_CFLAGS=-O2 -Wall -Wextra"])
+    if p.returncode != 0:
+        return {"ok": False, "broken": "example tools do not build: " + (p.stdout + p.stderr)[-800:]}
+    wd = vlib.scratch_dir("skv-tools-")
+    res = tools_drv.run_tools_check(os.path.join(d, "examples"), cexe, run.seed, N(tier, 12, 150), wd)
+    if not res["ok"]:
+        f = res["failures"][0]
+        return {"ok": False, "what": "example tool %s: %s (argv %s)" % (f.get("tool"), f.get("what"), " ".join(map(str, f.get("argv", [])))[:200]),
+                "witness": {"lines": ["# " + _json.dumps(f)[:2000]]}, "cases": res["cases"]}
+    return {"ok": True, "cases": res["cases"], "distinct_nontrivial": res["distinct_nontrivial"], "invalid_cases": res["invalid_cases"],
+            "by_tool": res.get("by_tool"), "length_classes": res.get("length_classes"), "invalid_classes": res.get("invalid_classes"), "samples": res.get("samples")}
+
+PROPS["C20"] = {"scripts": None, "configs": only_default, "backends": one_backend, "modules": [], "theorems": [], "oracles": [("tools", oracle_tools)]}
